@@ -413,19 +413,24 @@ Lemma encode_c_eq H sp r :
   digest r ++ [b2n (plusplus r)] ++ version sp ++ tag_of sp (lang r) ++ (flat (toks (allow_main sp) r) ++ pp r).
 Proof.
   intro Hs. unfold encode_c, pieces_c. rewrite Hs. unfold expected_shape_c, flatten.
-  cbn [map comp_piece concat]. rewrite flat_toks. change (put LP) with lp.
+  cbn [flat_map comp_pieces app map concat]. rewrite flat_toks. change (put LP) with lp.
   rewrite <- !app_assoc. rewrite app_nil_r. reflexivity.
 Qed.
+
+(* the bytes of the input-file digest component *)
+Definition idig (H : bytes -> bytes) (r : creq) : bytes :=
+  if salted r then H (input r) ++ [45] ++ H (time_pre r) else H (input r).
 
 Lemma encode_pp_eq H sp r :
   shape_p sp = expected_shape_p ->
   encode_pp H sp r =
   digest r ++ [b2n (plusplus r)] ++ fmt_version sp ++ tag_of sp (lang r)
-    ++ (flat (toks (allow_pp sp) r) ++ (path r ++ H (input r))).
+    ++ (flat (toks (allow_pp sp) r) ++ (path r ++ idig H r)).
 Proof.
   intro Hs. unfold encode_pp, pieces_p. rewrite Hs. unfold expected_shape_p, flatten.
-  cbn [map comp_piece concat]. rewrite flat_toks. change (put LP) with lp.
-  rewrite <- !app_assoc. rewrite app_nil_r. reflexivity.
+  cbn [flat_map comp_pieces]. unfold input_digest_pieces, idig.
+  destruct (salted r); cbn [map concat app]; rewrite flat_toks; change (put LP) with lp;
+    rewrite <- !app_assoc; rewrite ?app_nil_r; reflexivity.
 Qed.
 
 Lemma allowed_in al k : allowed al k = true -> In k al.
@@ -623,11 +628,14 @@ Qed.
 Lemma wf_p_unpack sp r :
   wf_p sp r = true ->
   common_ok sp r = true /\ env_ok (allow_pp sp) r = true /\ abs_path (path r) = true /\
-  nonul (path r) = true /\ no_tag_ext_path sp (lang r) (path r) = true.
+  nonul (path r) = true /\ no_tag_ext_path sp (lang r) (path r) = true /\
+  path_tail_ok (path r) = true /\ time_ok r = true.
 Proof.
   unfold wf_p, path_ok. intro H.
-  apply andb_true_iff in H. destruct H as [H H3]. apply andb_true_iff in H. destruct H as [H1 H2].
-  apply andb_true_iff in H3. destruct H3 as [H3 H5]. apply andb_true_iff in H3. destruct H3 as [H3 H4].
+  apply andb_true_iff in H. destruct H as [H H7]. apply andb_true_iff in H. destruct H as [H H3].
+  apply andb_true_iff in H. destruct H as [H1 H2].
+  apply andb_true_iff in H3. destruct H3 as [H3 H6]. apply andb_true_iff in H3. destruct H3 as [H3 H5].
+  apply andb_true_iff in H3. destruct H3 as [H3 H4].
   repeat split; assumption.
 Qed.
 
@@ -643,6 +651,111 @@ Proof. destruct p as [|c p]; simpl; [discriminate|]. intro H. apply N.eqb_eq in 
 
 Lemma b2n_inj a b : b2n a = b2n b -> a = b.
 Proof. destruct a, b; simpl; intro H; congruence || (exfalso; lia). Qed.
+
+Lemma le_bytes_inj k n m :
+  n < 256 ^ N.of_nat k -> m < 256 ^ N.of_nat k -> le_bytes k n = le_bytes k m -> n = m.
+Proof.
+  intros Hn Hm E. apply (f_equal le_dec) in E. rewrite !le_dec_le_bytes in E.
+  rewrite !N.mod_small in E by assumption. exact E.
+Qed.
+
+Lemma time_ok_unpack r :
+  time_ok r = true ->
+  fst (fst (date r)) < 256 ^ N.of_nat 4 /\ snd (fst (date r)) < 256 ^ N.of_nat 4 /\ snd (date r) < 256 ^ N.of_nat 4 /\
+  fst (mtime r) < 256 ^ N.of_nat 8 /\ snd (mtime r) < 256 ^ N.of_nat 4.
+Proof.
+  unfold time_ok. intro H.
+  change (256 ^ N.of_nat 4) with 4294967296. change (256 ^ N.of_nat 8) with 18446744073709551616.
+  apply andb_true_iff in H. destruct H as [H H5]. apply andb_true_iff in H. destruct H as [H H4].
+  apply andb_true_iff in H. destruct H as [H H3]. apply andb_true_iff in H. destruct H as [H1 H2].
+  apply N.ltb_lt in H1, H2, H3, H4, H5. repeat split; assumption.
+Qed.
+
+Lemma stamp_part_inj m1 m2 :
+  fst m1 < 256 ^ N.of_nat 8 -> snd m1 < 256 ^ N.of_nat 4 -> fst m2 < 256 ^ N.of_nat 8 -> snd m2 < 256 ^ N.of_nat 4 ->
+  le_bytes 8 (fst m1) ++ le_bytes 4 (snd m1) = le_bytes 8 (fst m2) ++ le_bytes 4 (snd m2) -> m1 = m2.
+Proof.
+  intros A1 B1 A2 B2 E. apply app_same_length in E; [|rewrite !le_bytes_length; reflexivity].
+  destruct E as [Ea Eb]. apply le_bytes_inj in Ea; try assumption. apply le_bytes_inj in Eb; try assumption.
+  destruct m1, m2; simpl in *; congruence.
+Qed.
+
+(* date / SOURCE_DATE_EPOCH / mtime can be read back from what is fed to the inner digest *)
+Lemma time_pre_inj r1 r2 :
+  input r1 = input r2 -> time_ok r1 = true -> time_ok r2 = true -> time_pre r1 = time_pre r2 ->
+  (has_date r1 = true -> date r1 = date r2 /\ sde_bytes r1 = sde_bytes r2) /\
+  (has_stamp r1 = true -> mtime r1 = mtime r2).
+Proof.
+  intros Ei T1 T2 E.
+  destruct (time_ok_unpack _ T1) as (Y1 & M1 & D1 & S1 & N1), (time_ok_unpack _ T2) as (Y2 & M2 & D2 & S2 & N2).
+  unfold time_pre in E.
+  assert (Hd : has_date r2 = has_date r1) by (unfold has_date; rewrite Ei; reflexivity).
+  assert (Hs : has_stamp r2 = has_stamp r1) by (unfold has_stamp; rewrite Ei; reflexivity).
+  rewrite Hd, Hs in E.
+  destruct (has_date r1), (has_stamp r1).
+  - rewrite <- !app_assoc in E. apply app_inv_head in E.
+    apply app_same_length in E; [|rewrite !le_bytes_length; reflexivity]. destruct E as [Ey E].
+    apply app_same_length in E; [|rewrite !le_bytes_length; reflexivity]. destruct E as [Em E].
+    apply app_same_length in E; [|rewrite !le_bytes_length; reflexivity]. destruct E as [Ed E].
+    apply app_same_length_r in E; [|rewrite !app_length, !le_bytes_length; reflexivity]. destruct E as [Es E].
+    apply app_inv_head in E. apply stamp_part_inj in E; try assumption.
+    apply le_bytes_inj in Ey, Em, Ed; try assumption.
+    split; intros _; [|exact E]. split; [|exact Es].
+    destruct (date r1) as [[y1 m1] d1], (date r2) as [[y2 m2] d2]; simpl in *; congruence.
+  - rewrite !app_nil_r in E. rewrite <- ?app_assoc in E. apply app_inv_head in E.
+    apply app_same_length in E; [|rewrite !le_bytes_length; reflexivity]. destruct E as [Ey E].
+    apply app_same_length in E; [|rewrite !le_bytes_length; reflexivity]. destruct E as [Em E].
+    apply app_same_length in E; [|rewrite !le_bytes_length; reflexivity]. destruct E as [Ed Es].
+    apply le_bytes_inj in Ey, Em, Ed; try assumption.
+    split; [|discriminate]. intros _. split; [|exact Es].
+    destruct (date r1) as [[y1 m1] d1], (date r2) as [[y2 m2] d2]; simpl in *; congruence.
+  - cbn [app] in E. rewrite <- ?app_assoc in E. apply app_inv_head in E. apply stamp_part_inj in E; try assumption.
+    split; [discriminate | intros _; exact E].
+  - split; discriminate.
+Qed.
+
+Lemma salt_view_eq r1 r2 :
+  input r1 = input r2 -> salted r1 = salted r2 -> time_ok r1 = true -> time_ok r2 = true ->
+  (salted r1 = true -> time_pre r1 = time_pre r2) -> salt_view r1 = salt_view r2.
+Proof.
+  intros Ei Es T1 T2 Et. unfold salt_view. rewrite <- Es.
+  destruct (salted r1); [|reflexivity]. specialize (Et eq_refl).
+  destruct (time_pre_inj r1 r2 Ei T1 T2 Et) as [Hd Hs].
+  assert (Ed : has_date r2 = has_date r1) by (unfold has_date; rewrite Ei; reflexivity).
+  assert (Est : has_stamp r2 = has_stamp r1) by (unfold has_stamp; rewrite Ei; reflexivity).
+  rewrite Ed, Est.
+  destruct (has_date r1), (has_stamp r1).
+  - destruct (Hd eq_refl) as [A B]. rewrite A, B, (Hs eq_refl). reflexivity.
+  - destruct (Hd eq_refl) as [A B]. rewrite A, B. reflexivity.
+  - rewrite (Hs eq_refl). reflexivity.
+  - reflexivity.
+Qed.
+
+(* conversely the digest component depends on the request only through the file contents and [salt_view] *)
+Lemma salt_view_pieces r1 r2 :
+  input r1 = input r2 -> salt_view r1 = salt_view r2 -> input_digest_pieces r1 = input_digest_pieces r2.
+Proof.
+  intros Ei Ev. unfold salt_view in Ev. unfold input_digest_pieces.
+  assert (Ed : has_date r2 = has_date r1) by (unfold has_date; rewrite Ei; reflexivity).
+  assert (Est : has_stamp r2 = has_stamp r1) by (unfold has_stamp; rewrite Ei; reflexivity).
+  destruct (salted r1), (salted r2); try discriminate; rewrite Ei; [|reflexivity].
+  assert (Et : time_pre r1 = time_pre r2).
+  { unfold time_pre. rewrite Ed, Est. rewrite Ed, Est in Ev.
+    destruct (has_date r1), (has_stamp r1); inversion Ev; subst; try reflexivity; congruence. }
+  rewrite Et. reflexivity.
+Qed.
+
+Lemma rev_tail_hex (p a : bytes) :
+  is_hex64 a = true -> path_tail_ok (p ++ a ++ [45]) = false.
+Proof.
+  intro Ha. unfold path_tail_ok.
+  assert (E : rev (p ++ a ++ [45]) = 45 :: (rev a ++ rev p)).
+  { rewrite app_assoc, rev_app_distr. simpl rev at 1. rewrite rev_app_distr. reflexivity. }
+  rewrite E. rewrite firstn_app, rev_length, (hex64_length a Ha).
+  replace (64 - 64)%nat with 0%nat by reflexivity. rewrite firstn_O, app_nil_r.
+  rewrite firstn_all2 by (rewrite rev_length, (hex64_length a Ha); apply Nat.le_refl).
+  rewrite rev_involutive, Ha. reflexivity.
+Qed.
 
 Section WithHash.
   Variable H : bytes -> bytes.
@@ -740,15 +853,51 @@ Section WithHash.
   (* --- the preprocessor-level key *)
   Hypothesis H_hex : forall x, is_hex64 (H x) = true.
 
+  Lemma idig_nonul r : nonul (idig H r) = true.
+  Proof.
+    unfold idig. destruct (salted r); rewrite ?nonul_app, ?(hex64_nonul _ (H_hex _)); reflexivity.
+  Qed.
+
+  Lemma idig_head r y : is_hex (nth 0 (idig H r ++ y) 1) = true.
+  Proof.
+    unfold idig. destruct (salted r); rewrite <- ?app_assoc;
+      (rewrite app_nth1 by (rewrite (hex64_length _ (H_hex _)); exact lt0_64)); apply hex64_nth; try exact lt0_64; apply H_hex.
+  Qed.
+
+  (* the path is followed by  digest  or  digest "-" digest : unambiguous unless the path itself ends that way *)
+  Lemma tail_split r1 r2 :
+    path_tail_ok (path r1) = true -> path_tail_ok (path r2) = true ->
+    path r1 ++ idig H r1 = path r2 ++ idig H r2 ->
+    path r1 = path r2 /\ salted r1 = salted r2 /\ H (input r1) = H (input r2) /\
+    (salted r1 = true -> H (time_pre r1) = H (time_pre r2)).
+  Proof.
+    intros P1 P2 E. unfold idig in E.
+    pose proof (fun x => hex64_length _ (H_hex x)) as HL.
+    destruct (salted r1) eqn:S1, (salted r2) eqn:S2.
+    - apply app_same_length_r in E; [|rewrite !app_length, !HL; reflexivity]. destruct E as [Ep E].
+      apply app_same_length in E; [|rewrite !HL; reflexivity]. destruct E as [Ea E].
+      apply (app_inv_head [45]) in E. repeat split; try assumption. intros _. exact E.
+    - exfalso. rewrite !app_assoc in E. apply app_same_length_r in E; [|rewrite !HL; reflexivity].
+      destruct E as [Ep _]. rewrite <- !app_assoc in Ep. rewrite <- Ep in P2.
+      rewrite (rev_tail_hex _ _ (H_hex _)) in P2. discriminate.
+    - exfalso. rewrite !app_assoc in E. apply app_same_length_r in E; [|rewrite !HL; reflexivity].
+      destruct E as [Ep _]. rewrite <- !app_assoc in Ep. rewrite Ep in P1.
+      rewrite (rev_tail_hex _ _ (H_hex _)) in P1. discriminate.
+    - apply app_same_length_r in E; [|rewrite !HL; reflexivity]. destruct E as [Ep E].
+      repeat split; try assumption. discriminate.
+  Qed.
+
   Theorem encode_pp_inj sp r1 r2 :
     spec_good sp -> wf_p sp r1 = true -> wf_p sp r2 = true ->
     encode_pp H sp r1 = encode_pp H sp r2 ->
     digest r1 = digest r2 /\ plusplus r1 = plusplus r2 /\ tag_of sp (lang r1) = tag_of sp (lang r2) /\
     args r1 = args r2 /\ extra r1 = extra r2 /\ fenv (allow_pp sp) r1 = fenv (allow_pp sp) r2 /\
-    path r1 = path r2 /\ H (input r1) = H (input r2).
+    path r1 = path r2 /\ salted r1 = salted r2 /\ H (input r1) = H (input r2) /\
+    (salted r1 = true -> H (time_pre r1) = H (time_pre r2)).
   Proof.
     intros (_ & Hsp & Htags & Hallow) W1 W2 E.
-    destruct (wf_p_unpack _ _ W1) as (C1 & En1 & Ab1 & Pn1 & Pt1), (wf_p_unpack _ _ W2) as (C2 & En2 & Ab2 & Pn2 & Pt2).
+    destruct (wf_p_unpack _ _ W1) as (C1 & En1 & Ab1 & Pn1 & Pt1 & Pl1 & _),
+             (wf_p_unpack _ _ W2) as (C2 & En2 & Ab2 & Pn2 & Pt2 & Pl2 & _).
     destruct (common_ok_unpack _ _ C1) as (D1 & K1 & A1 & X1), (common_ok_unpack _ _ C2) as (D2 & K2 & A2 & X2).
     destruct (allow_ok_unpack _ Hallow) as (_ & Al).
     rewrite !encode_pp_eq in E by exact Hsp.
@@ -756,10 +905,8 @@ Section WithHash.
     destruct E as [Ed E]. simpl in E. inversion E as [[Eb E']]. clear E. apply b2n_inj in Eb.
     apply app_inv_head in E'.
     pose proof (toks_ok _ _ Al A1 X1 En1) as T1. pose proof (toks_ok _ _ Al A2 X2 En2) as T2.
-    assert (N1 : nonul (path r1 ++ H (input r1)) = true).
-    { rewrite nonul_app, Pn1, (hex64_nonul _ (H_hex _)). reflexivity. }
-    assert (N2 : nonul (path r2 ++ H (input r2)) = true).
-    { rewrite nonul_app, Pn2, (hex64_nonul _ (H_hex _)). reflexivity. }
+    assert (N1 : nonul (path r1 ++ idig H r1) = true) by (rewrite nonul_app, Pn1, idig_nonul; reflexivity).
+    assert (N2 : nonul (path r2 ++ idig H r2) = true) by (rewrite nonul_app, Pn2, idig_nonul; reflexivity).
     apply tag_peel in E'; try assumption; try (apply no_tag_ext_path_no_ext; assumption).
     destruct E' as [Et E'].
     destruct (toks_inj _ _ _ _ _ T1 T2 N1 N2 E') as (Ea & Ee & hs & Hhs & Hc).
@@ -777,9 +924,9 @@ Section WithHash.
         rewrite (abs_path_head _ _ Ab1) in Ep. symmetry in Ep. exact (Hc47 Ep). }
     subst hs. simpl in Hc. rewrite !app_nil_r in Hc.
     assert (Ex : extra r1 = extra r2) by (destruct Hc as [[E1 _]|[E1 _]]; congruence).
-    assert (Ep : path r1 ++ H (input r1) = path r2 ++ H (input r2)) by (destruct Hc as [[_ E2]|[_ E2]]; congruence).
-    apply app_same_length_r in Ep; [|rewrite (hex64_length _ (H_hex _)), (hex64_length _ (H_hex _)); reflexivity].
-    destruct Ep as [Ep Ei]. repeat (split; [assumption|]). exact Ei.
+    assert (Ep : path r1 ++ idig H r1 = path r2 ++ idig H r2) by (destruct Hc as [[_ E2]|[_ E2]]; congruence).
+    destruct (tail_split r1 r2 Pl1 Pl2 Ep) as (Epath & Es & Ei & Etp).
+    repeat (split; [assumption|]). exact Etp.
   Qed.
 End WithHash.
 
@@ -931,15 +1078,39 @@ Section Families.
   (* --- preprocessor-level key *)
   Hypothesis H_hex : forall x, is_hex64 (H x) = true.
 
+  (* from equal pre-images to equal components, given collision-freeness of H on the two inner inputs *)
+  Lemma pp_components sp r1 r2 :
+    spec_good sp -> wf_p sp r1 = true -> wf_p sp r2 = true ->
+    (H (input r1) = H (input r2) -> input r1 = input r2) ->
+    (H (time_pre r1) = H (time_pre r2) -> time_pre r1 = time_pre r2) ->
+    encode_pp H sp r1 = encode_pp H sp r2 -> canon_p sp r1 = canon_p sp r2.
+  Proof.
+    intros G W1 W2 Hinj Hinj2 E.
+    destruct (encode_pp_inj H H_hex sp r1 r2 G W1 W2 E) as (Ed & Eb & Et & Ea & Ex & Ee & Ep & Es & Ei & Etp).
+    apply Hinj in Ei.
+    destruct (wf_p_unpack _ _ W1) as (_ & _ & _ & _ & _ & _ & T1), (wf_p_unpack _ _ W2) as (_ & _ & _ & _ & _ & _ & T2).
+    assert (Ev : salt_view r1 = salt_view r2).
+    { apply salt_view_eq; try assumption. intro S. apply Hinj2. exact (Etp S). }
+    unfold canon_p. congruence.
+  Qed.
+
+  Lemma canon_p_inv sp r1 r2 :
+    canon_p sp r1 = canon_p sp r2 ->
+    digest r1 = digest r2 /\ plusplus r1 = plusplus r2 /\ tag_of sp (lang r1) = tag_of sp (lang r2) /\
+    args r1 = args r2 /\ extra r1 = extra r2 /\ fenv (allow_pp sp) r1 = fenv (allow_pp sp) r2 /\
+    path r1 = path r2 /\ input r1 = input r2 /\ salt_view r1 = salt_view r2.
+  Proof. unfold canon_p. intro E. inversion E. repeat split; assumption. Qed.
+
   Theorem single_change_p sp r1 r2 :
     spec_good sp -> wf_p sp r1 = true -> wf_p sp r2 = true ->
     (H (input r1) = H (input r2) -> input r1 = input r2) ->
+    (H (time_pre r1) = H (time_pre r2) -> time_pre r1 = time_pre r2) ->
     one_differs_p sp r1 r2 -> encode_pp H sp r1 <> encode_pp H sp r2.
   Proof.
-    intros G W1 W2 Hinj Hone E.
-    destruct (encode_pp_inj H H_hex sp r1 r2 G W1 W2 E) as (Ed & Eb & Et & Ea & Ex & Ee & Ep & Ei).
-    apply Hinj in Ei. unfold one_differs_p in Hone. cbv zeta in Hone.
-    destruct Hone as [Hd|[Hd|[Hd|[Hd|[Hd|[Hd|[Hd|Hd]]]]]]]; tauto.
+    intros G W1 W2 Hinj Hinj2 Hone E.
+    pose proof (pp_components sp r1 r2 G W1 W2 Hinj Hinj2 E) as Ec. apply canon_p_inv in Ec.
+    unfold one_differs_p in Hone. cbv zeta in Hone.
+    destruct Hone as [Hd|[Hd|[Hd|[Hd|[Hd|[Hd|[Hd|[Hd|Hd]]]]]]]]; tauto.
   Qed.
 
   Theorem boundary_shift_p sp r pre a b s post :
@@ -987,8 +1158,9 @@ Section Families.
   Lemma canon_p_encode sp r1 r2 :
     shape_p sp = expected_shape_p -> canon_p sp r1 = canon_p sp r2 -> encode_pp H sp r1 = encode_pp H sp r2.
   Proof.
-    intros Hs E. unfold canon_p in E. inversion E as [[E1 E2 E3 E4 E5 E6 E7 E8]].
-    rewrite !encode_pp_eq by exact Hs. unfold toks. rewrite E1, E2, E3, E4, E5, E6, E7, E8. reflexivity.
+    intros Hs E. apply canon_p_inv in E. destruct E as (E1 & E2 & E3 & E4 & E5 & E6 & E7 & E8 & E9).
+    unfold encode_pp, pieces_p. rewrite Hs. unfold expected_shape_p. cbn [flat_map comp_pieces].
+    rewrite (salt_view_pieces r1 r2 E8 E9). rewrite E1, E2, E3, E4, E5, E6, E7. reflexivity.
   Qed.
 
   Theorem pp_key_iff sp r1 r2 :
@@ -996,12 +1168,12 @@ Section Families.
     gated sp r1 = false -> gated sp r2 = false ->
     (H (encode_pp H sp r1) = H (encode_pp H sp r2) -> encode_pp H sp r1 = encode_pp H sp r2) ->
     (H (input r1) = H (input r2) -> input r1 = input r2) ->
+    (H (time_pre r1) = H (time_pre r2) -> time_pre r1 = time_pre r2) ->
     (pp_key H sp r1 = pp_key H sp r2 <-> canon_p sp r1 = canon_p sp r2).
   Proof.
-    intros G W1 W2 G1 G2 Hinj Hinj2. unfold pp_key. rewrite G1, G2. split.
+    intros G W1 W2 G1 G2 Hinj Hinj2 Hinj3. unfold pp_key. rewrite G1, G2. split.
     - intro E. inversion E as [E']. apply Hinj in E'.
-      destruct (encode_pp_inj H H_hex sp r1 r2 G W1 W2 E') as (Ed & Eb & Et & Ea & Ex & Ee & Ep & Ei).
-      apply Hinj2 in Ei. unfold canon_p. congruence.
+      exact (pp_components sp r1 r2 G W1 W2 Hinj2 Hinj3 E').
     - intro E. destruct G as (_ & Hs & _). rewrite (canon_p_encode sp r1 r2 Hs E). reflexivity.
   Qed.
 
